@@ -153,3 +153,82 @@ class ReaderView:
             raise AnalysisError(f"socket_read_task: expected one codec.decode call, found {len(self.decode_calls)}")
         self.decode_call = self.decode_calls[0]
         self.decode_nodes = self.cfg.ids_of(self.decode_call)
+
+
+def extent_findings(dv: DecoderView):
+    """C01 rule 1 / C03 shared construct: the frame extent is delimited only by SOH-anchored
+    searches (next-frame marker, CheckSum trailer), never by a bare marker search, and not by
+    the buffer end when a trailer is present.  Returns (instances, findings) where findings are
+    (construct, what, where-node)."""
+    inst, bad = 0, []
+    text_searches = [(c, r, lit) for c, r, lit in dv.searches() if r != dv.buf]
+    buf_searches = [(c, r, lit) for c, r, lit in dv.searches() if r == dv.buf]
+    if len(buf_searches) != 1:
+        raise AnalysisError(f"decode: expected one frame-start search on the buffer, found {len(buf_searches)}")
+    marker = buf_searches[0][2]
+    if not isinstance(marker, (bytes, str)) or not marker:
+        raise AnalysisError("decode: the frame-start marker does not fold to a literal")
+    mtxt = marker.decode("latin-1") if isinstance(marker, bytes) else marker
+    for c, r, lit in text_searches:
+        inst += 1
+        if lit is None:
+            bad.append((f"search[{unparse(c.args[0])[:30]}]", "a frame-extent search pattern does not fold to a literal", c))
+        elif not lit.startswith(dv.soh):
+            bad.append((f"search[{lit!r}]", f"the frame extent depends on a search for the bare text {lit!r}, which can occur inside a field value "
+                                            "(values never contain SOH, so only SOH-anchored patterns are unambiguous): the value is cut there", c))
+    # the extent variable: upper bound of the slice of the text that is split into fields
+    split_bound = None
+    for n in walk_no_nested(dv.fn):
+        if isinstance(n, ast.Call) and isinstance(n.func, ast.Attribute) and n.func.attr == "split" and n.args and dv.fold_str(n.args[0]) == dv.soh:
+            recv = n.func.value
+            if isinstance(recv, ast.Subscript) and isinstance(recv.slice, ast.Slice) and recv.slice.upper is not None:
+                split_bound = recv.slice.upper
+            else:
+                split_bound = False
+    inst += 1
+    if split_bound is None:
+        raise AnalysisError("decode: the split of the frame text on SOH was not found")
+    if split_bound is False:
+        bad.append(("split[whole text]", "the text split into fields runs to the end of the buffer: bytes of the next frame become fields of this one", dv.fn))
+        return inst, bad
+    kinds_lits = set()
+    names = {x.id for x in ast.walk(split_bound) if isinstance(x, ast.Name)}
+    deriv = {}
+    for nm in names:
+        deriv.update(derivation(dv.fn, nm))
+    for vals in deriv.values():
+        for v in vals:
+            for x in ast.walk(v):
+                if isinstance(x, ast.Call) and isinstance(x.func, ast.Attribute) and x.func.attr in ("find", "index") and x.args:
+                    kinds_lits.add(dv.fold_str(x.args[0]))
+    inst += 1
+    if dv.soh + mtxt not in kinds_lits:
+        bad.append(("extent[next-frame marker]", "the frame extent is not bounded by the SOH-anchored start marker of the next frame", dv.fn))
+    inst += 1
+    if dv.soh + "10=" not in kinds_lits:
+        bad.append(("extent[trailer]", "the frame extent is not cut at the SOH-anchored CheckSum trailer: with the start of the next frame already in the "
+                                       "buffer the fragment is parsed as a field of this frame, which then fails its checksum and is lost", dv.fn))
+    # the returned bytes are the buffer slice [start : start + extent]
+    inst += 1
+    for r in dv.returns:
+        if not dv.is_message_return(r):
+            continue
+        e2 = r.ast.value.elts[2]
+        ok = False
+        if isinstance(e2, ast.Name):
+            for v in derivation(dv.fn, e2.id, 0).get(e2.id, []):
+                if isinstance(v, ast.Subscript) and unparse(v.value) == dv.buf and isinstance(v.slice, ast.Slice) \
+                        and v.slice.lower is not None and v.slice.upper is not None:
+                    lo = dv.sources(v.slice.lower, r.id)
+                    up_names = {x.id for x in ast.walk(v.slice.upper) if isinstance(x, ast.Name)}
+                    ext_names = set(names)
+                    # upper bound = start + extent (directly or through one local)
+                    flat = set(up_names)
+                    for nm in up_names:
+                        for vv in derivation(dv.fn, nm, 0).get(nm, []):
+                            flat |= {x.id for x in ast.walk(vv) if isinstance(x, ast.Name)}
+                    lo_names = {x.id for x in ast.walk(v.slice.lower) if isinstance(x, ast.Name)}
+                    ok = lo <= {"START"} and bool(lo) and bool(ext_names & flat) and bool(lo_names & flat)
+        if not ok:
+            bad.append(("returned-bytes", "the bytes returned as third element are not the buffer slice [frame start : frame start + frame extent]", r.ast))
+    return inst, bad
